@@ -35,6 +35,8 @@ def lib(name, openmp=False):
     else:
         srcs = [os.path.join(c, name + ".c")]
         flags = ["-Dstatic="]
+    from .cfront import build_defines
+    flags = flags + ["-D" + d for d in build_defines()]
     cmd = ["gcc", "-O2", "-fPIC", "-shared", "-I" + c] + flags + (["-fopenmp"] if openmp else []) + srcs + ["-lm", "-o", out]
     p = subprocess.run(cmd, capture_output=True, text=True)
     if p.returncode != 0:
